@@ -11,7 +11,7 @@ from .. import smc_common as sc
 
 ID = "C09"
 LEVEL = "exploration"
-BUDGET = {"quick": 4000, "thorough": 80000}
+BUDGET = {"quick": 4000, "thorough": 200000}
 SHARDS = {"quick": 8, "thorough": 16}
 RULE = (
     "case = SMCSamples population (generated x, log L, log pi, log q; N in [2,300]; namespace; width; -inf likelihood "
